@@ -7,7 +7,7 @@ names `Write` accepts and in which format it writes).
 Parameters: `S` = a CVSS score (Go float32, copied bit for bit), `P`/`PP` = a package and its record with
 `pkgToProto` (= `ProtoPkg.packageToProto`, modelled and tied separately by the `proto` op), `T` = a timestamp.
 Go enum fields are `int`s: every value outside the declared constants falls into the switch's default.
-A nil dereference of the Go code is the outcome `panic` (the code has one: `severityToProto(nil)`).
+A nil dereference of the Go code would be the outcome `panic`; the code has none (`C14_result_never_panics`).
 -/
 import Scalibr.Model.ProtoPkg
 
@@ -132,13 +132,13 @@ def severityEnumToProto (e : Int) : PSeverityEnum :=
 /-- `cvssToProto` -/
 def cvssToProto {S : Type} (c : CVSS S) : CVSS S := ⟨c.base, c.temporal, c.environmental⟩
 
-/-- `severityToProto` on a non-nil `*Severity` -/
+/-- `severityToProto` on a non-nil `*Severity` (nil gives nil: `Option.map` below) -/
 def severityToProto {S : Type} (s : Severity S) : PSeverity S :=
   ⟨severityEnumToProto s.sev, s.v2.map cvssToProto, s.v3.map cvssToProto⟩
 
 /-- `findingToProto`: nil advisory → ErrAdvisoryMissing; the target is built; nil ID → ErrAdvisoryIDMissing; then the record.
-`severityToProto(f.Adv.Sev)` reads `s.Severity` without a nil check: a finding whose advisory has no severity PANICS.
-`spb.Finding.detectors` is not set: the names the core library recorded in `Finding.Detectors` are dropped. -/
+An advisory without severity gives a record without severity (since the fix of C14/finding-nil-severity-panics).
+The detector names the core library recorded in `Finding.Detectors` are copied (since the fix of C14/finding-detectors-dropped). -/
 def findingToProto {S P PP : Type} (pkgToProto : P → PP) (f : Finding S P) : Res (PFinding S PP) :=
   match f.adv with
   | none => .advisoryMissing
@@ -147,13 +147,10 @@ def findingToProto {S P PP : Type} (pkgToProto : P → PP) (f : Finding S P) : R
     match adv.id with
     | none => .advisoryIDMissing
     | some id =>
-      match adv.sev with
-      | none => .panic
-      | some sev =>
-        .ok { adv := ⟨(id.1, id.2), typeEnumToProto adv.typ, adv.title, adv.description, adv.recommendation, some (severityToProto sev)⟩
-              target := target
-              extra := f.extra
-              detectors := [] }
+      .ok { adv := ⟨(id.1, id.2), typeEnumToProto adv.typ, adv.title, adv.description, adv.recommendation, adv.sev.map severityToProto⟩
+            target := target
+            extra := f.extra
+            detectors := f.detectors }
 
 /-- the findings loop of `ScanResultToProto`: the first finding that does not convert decides -/
 def findingsLoop {S P PP : Type} (pkgToProto : P → PP) : List (Finding S P) → List (PFinding S PP) → Res (List (PFinding S PP))
